@@ -39,7 +39,7 @@ import shutil
 import tempfile
 import zipfile
 
-from .. import core
+from .. import core, iosession
 from ..faults import Injector, InjectedFault
 from ..impl import mx, close_all, quiet, err_kind
 
@@ -1368,6 +1368,11 @@ def run(ctx, out):
         tempfile.tempdir = old_tempdir
         close_all()
         shutil.rmtree(tmp, ignore_errors=True)
+    # the session-wide IOManager (group None of external files) next to the Lean kernel IOSession: loads that fail
+    # after the IOSpecs were read, beside open models that keep data in external files (mxh/iosession.py)
+    if not iosession.self_test():
+        raise core.Infra("iosession tie: the driver's seeded variants are not told apart")
+    iosession.failed_load_family(ctx, out, stats)
     nontrivial = stats["faulted"] + sum(v for k, v in stats.items() if k.startswith("load:") and k != "load:nowhere")
     out.coverage.update({
         "evaluations": stats["saves"] + stats["loads"],
@@ -1398,6 +1403,9 @@ def replay(ctx, payload, out):
     if not h or not isinstance(h[0], dict):
         return
     stats = _new_stats()
+    if "bystanders" in h[0]:            # a session of mxh/iosession.py
+        iosession.run_load_session(h[0], out, stats)
+        return
     lines = []
     old_tempdir = tempfile.tempdir
     tmp = tempfile.mkdtemp(prefix="mxh_c14_")
